@@ -110,6 +110,15 @@ fn clip_pieces(fl: &Flat, t: &[usize; 3]) -> (usize, bool) {
         if !(a > 2e-3) {
             degenerate = true;
         }
+        // … and a piece thinner than 0.02 px — C01's band: it has no pixel
+        // "unambiguously inside", and a rasteriser that snaps vertices to a
+        // sub-pixel grid (1/256 px) sees a different, equally defensible
+        // winding — is not judged either (a = twice the area, so a/base is
+        // the altitude over the longest edge)
+        let base = (0..3).map(|i| ((s[i].0 - s[(i + 1) % 3].0).powi(2) + (s[i].1 - s[(i + 1) % 3].1).powi(2)).sqrt()).fold(0.0f64, f64::max);
+        if !(a > 0.02 * base) {
+            degenerate = true;
+        }
     }
     (out.len(), degenerate)
 }
